@@ -485,11 +485,12 @@ PROPS["C20"] = dict(
           "stage created/joined/leaving/left/left-and-reaped/shut down is visited); the excluded orderings are Leave started after Shutdown returned and, in "
           "virtual time only, two overlapping Leave calls. Oracle: no call panics, every call returns within its documented wait (Leave within timeout + 1 ms), "
           "repeated Shutdown returns nil, after Shutdown returns no packet, stream write or dial of the node reaches the network and attempts on the closed "
-          "transport stop within one awareness-scaled probe interval, and the bubble exits (no goroutine of the node left) after that drain period. The "
+          "transport stop within one awareness-scaled probe interval, and the bubble exits (no goroutine of the node left) after that drain period; the subject may also know a frozen member (swallows packets, accepts streams, never answers) and run with TCPTimeout 400 ms or 10 s: every TCP fallback ping stream is closed within two probe intervals of its dial, and a stream exchange the node dialled is gone one scaled probe interval after Shutdown (with TCPTimeout 10 s that is the listed finding C20-stream-outlives-shutdown: counted, must be gone by dial + TCPTimeout). The "
           "real-time variant releases 2-6 calls (incl. Leave || Leave, Shutdown || Shutdown, UpdateNode || UpdateNode) truly concurrently with 40 ms probe intervals on a transport whose Shutdown takes 15 ms (every return of Shutdown must find the transport closed); both variants also run under the race detector. non-trivial = a concurrent group of >= 2 calls or a call at the left-and-reaped stage"),
     tests=[
         dict(name="life", run="^TestLifecycle$", quick=dict(shards=10, checks=120, timeout=600), thorough=dict(shards=10, checks=5000, timeout=3400)),
         dict(name="life-race", run="^TestLifecycle$", race=True, quick=dict(shards=3, checks=25, timeout=900), thorough=dict(shards=3, checks=800, timeout=3400)),
+        dict(name="known", kind="plain", run="^TestKnownStreamOutlivesShutdown$", quick=dict(shards=1, timeout=300)),
         dict(name="rt-race", run="^TestLifecycleRealtime$", race=True, quick=dict(shards=3, checks=40, timeout=900), thorough=dict(shards=3, checks=1500, timeout=3400)),
     ],
     assumptions=CLUSTER_ASSUMPTIONS + [
